@@ -52,7 +52,9 @@ RULE = ("seeded histories of 2-8 requests (quick; up to 14 thorough) whose outco
         "(configuration, operation lists).  In every family the seed also draws recording / raising on_block and on_permit "
         "observers, slow agents (virtual time passes inside express()) and re-entrant agents (the agent of a request runs "
         "enough failing requests to trip the breaker and lets time pass before it gives its own verdict); a threads "
-        "scenario keeps a request in flight while another task trips the breaker and advances the clock")
+        "scenario keeps a request in flight while another task trips the breaker and advances the clock; 8 % of the "
+        "sequential histories make a prompt cached before the trip the first request after the timeout (a probe that is a "
+        "cache hit) and go on with fresh requests")
 COMPONENTS = {"real": ["operon_ai.topology.loops.CoherentFeedForwardLoop (run, breaker, cache)",
                        "operon_ai.state.metabolism.ATP_Store (shared budget the fakes spend from)"],
               "stub": ["executor / assessor agents (scripted fakes that spend energy, may stall and re-enter the loop)",
@@ -67,7 +69,9 @@ ASSUMPTIONS = [
     "'in total' is counted since construction, the last close by a successful probe, or reset_circuit_breaker()",
     "a cache hit and an intentional block interrupt a run of consecutive failures (the weaker reading)",
     "'the timeout has elapsed' includes the instant exactly at last failure + timeout",
-    "a request admitted while the breaker reports OPEN or HALF_OPEN is a probe; any number of probes may be admitted",
+    "a request admitted while the breaker reports OPEN or HALF_OPEN is a probe; any number of probes may be admitted; "
+    "once the timeout has elapsed since every candidate last failure a request must be admitted also when an earlier, "
+    "inconclusive probe left the breaker HALF_OPEN (not demanded of requests nested inside a probe still in flight)",
     "the state reported by get_circuit_breaker_stats() before a request is the state that request meets (sequential phases only)",
     "a raising on_block / on_permit observer is the caller's own exception: the reply it was handed stands for the returned "
     "one and all breaker clauses are judged from the stats afterwards",
@@ -85,7 +89,7 @@ EXPECT_PROBES = ("opened", "half_open_seen", "probe_success_closed", "probe_fail
                  "threads_run", "overlapping_requests", "overlap_while_recovering", "closed_zero_sample_during_overlap",
                  "overlap_all_failing_judged", "overlap_certainly_open_judged", "post_continuation_request",
                  "preempted_while_holding_a_lock", "observer_raised", "request_in_flight_over_others",
-                 "request_spans_clock_move", "last_failure_pinned_after_clock_move")
+                 "request_spans_clock_move", "last_failure_pinned_after_clock_move", "request_after_inconclusive_probe")
 
 EXEC_PERMITS = ("EXECUTE", "PERMIT")
 EXC = {"RuntimeError": RuntimeError, "ValueError": ValueError, "TimeoutError": TimeoutError, "KeyError": KeyError}
@@ -264,6 +268,29 @@ def _gen_threads(rng, tier):
     return plan
 
 
+def _gen_cached_probe(rng, cfg, profile):
+    """A prompt answered (and cached) before the trip comes back as the first request after the timeout: the probe is a cache
+    hit and decides nothing.  Whatever arrives next, and later, must still be treated as a probe."""
+    thr = cfg["threshold"]
+    cfg.update(cache=True, ttl=300.0)
+    ops = [["req", 0] + _pair(rng, weighted(rng, [(4, "success"), (3, "block"), (2, "failure"), (1, "neutral")]), profile)]
+    pid = 1
+    for _ in range(thr):
+        ops.append(["req", pid] + _pair(rng, "failure", profile))
+        pid += 1
+    ops.append(["clock", "rel", rng.choice([0.0, 0.001, 1.0, cfg["timeout"]])])
+    ops.append(["req", 0] + _pair(rng, "success", profile))                       # served from the cache
+    for _ in range(rng.randint(1, 3)):
+        x = rng.random()
+        if x < 0.25:
+            ops.append(["req", rng.randrange(pid)] + _pair(rng, "success", profile))   # maybe another cache hit
+        elif x < 0.35:
+            ops.append(["clock", "adv", rng.choice([0.5, cfg["timeout"]])])
+        ops.append(["req", pid] + _pair(rng, weighted(rng, [(4, "success"), (3, "failure"), (1, "block")]), profile))
+        pid += 1
+    return {"config": cfg, "ops": ops}
+
+
 def gen(rng, tier, i):
     if i % THREADS_EVERY == 0:
         return _gen_threads(rng, tier)
@@ -273,6 +300,8 @@ def gen(rng, tier, i):
            "breaker": rng.random() < 0.93, "cache": rng.random() < 0.5, "ttl": rng.choice([300.0, 300.0, 45.0]),
            "callbacks": weighted(rng, CALLBACKS)}
     profile = weighted(rng, [(3, "exc"), (3, "fail"), (4, "mixed")])
+    if rng.random() < 0.08:
+        return _gen_cached_probe(rng, cfg, profile)
     target = rng.randint(2, 8 if tier == "quick" else 14)
     ops, nreq, fresh, nf, opened = [], 0, 0, 0, False
     offs = [-1.0, -0.001, 0.0, 0.001, 1.0, 3 * timeout]
@@ -498,6 +527,7 @@ class World:
         self.tick = 0
         self.last = None       # record of the latest sequential request
         self.clock_moves = []  # (tick, new clock value) of every clock move made while tasks overlap
+        self.depth = 0         # > 0 while a re-entrant agent runs nested requests
         self.stop = False
 
     def who(self):
@@ -538,7 +568,11 @@ class World:
         me = self.who()
         outer = self.cur_req[me]
         self.k.fault("collab_reenter")
-        ok = self.seq_op(["req"] + list(nop), None)
+        self.depth += 1
+        try:
+            ok = self.seq_op(["req"] + list(nop), None)
+        finally:
+            self.depth -= 1
         self.cur_req[me] = outer
         if not ok:
             self.stop = True
@@ -644,7 +678,12 @@ class World:
 
         elapsed = [now - us(t) for t, _ in cands0]
         isolation_due = s0 == "OPEN" and bool(cands0) and all(e < timeout_us for e in elapsed)
-        recovery_due = s0 == "OPEN" and bool(cands0) and all(e >= timeout_us for e in elapsed)
+        # "after the timeout a probe is admitted": also when an earlier probe was inconclusive (a cache hit, an intentional
+        # block) and left the breaker HALF_OPEN - unless this request is nested inside a probe that is still in flight
+        recovery_due = (bool(cands0) and all(e >= timeout_us for e in elapsed)
+                        and (s0 == "OPEN" or (s0 == "HALF_OPEN" and self.depth == 0)))
+        if recovery_due and s0 == "HALF_OPEN":
+            k.probe("request_after_inconclusive_probe")
         csite = kinds(c[1] for c in cands0)
         if "fail" in csite or "fail" in streak:
             k.probe("executor_failure_in_window")
